@@ -62,6 +62,9 @@ type Spec struct {
 	// Late: exchanges started after the first ones have completed; when present, the attacks are not sent one after
 	// the other at the end but interleaved (seeded) with the messages of these exchanges.
 	Late []Exch `json:"late,omitempty"`
+	// Mode "sync": every packed message is delivered inside the sender's Send call and the call returns only when
+	// the receiver has finished reacting (its own replies delivered the same way): replies race the sender's persistence.
+	Mode string `json:"mode,omitempty"`
 	Seed uint64 `json:"seed"`
 	Note string `json:"note,omitempty"`
 }
@@ -213,6 +216,40 @@ func plainStr(p *Packet, k string) string {
 	return s
 }
 
+// deliverCore hands one packet to its destination and waits until the agent has finished reacting to it.
+func (r *runner) deliverCore(p *Packet) {
+	w := r.w
+	w.net.Peek(p)
+
+	dst := w.agentAt(p.To)
+	if dst == nil {
+		return
+	}
+
+	id := plainStr(p, "@id")
+	sig0 := signals.count("m:" + id)
+	ev0 := dst.countEvents(p.Thread)
+
+	w.net.Deliver(p)
+
+	if p.UnpackErr != nil || p.HandlerErr != nil {
+		return
+	}
+
+	ok := true
+
+	switch p.Type {
+	case dxRequest, lcRequest:
+		ok = dst.waitFor(settle, func() bool { return dst.countEventsLocked(p.Thread) > ev0 })
+	case dxResponse, dxComplete, lcResponse, lcAck:
+		ok = signals.waitAbove("m:"+id, sig0, settle)
+	}
+
+	if !ok {
+		w.setInconclusive("no reaction to " + p.Type + " within the deadline")
+	}
+}
+
 // deliver hands one packet to its destination and waits until the agent has finished reacting to it.
 func (r *runner) deliver(p *Packet) {
 	w := r.w
@@ -245,7 +282,7 @@ func (r *runner) deliver(p *Packet) {
 		}
 
 		if !ok {
-			w.inconclusive = "no reaction to " + p.Type + " within the deadline"
+			w.setInconclusive("no reaction to " + p.Type + " within the deadline")
 		}
 	}
 
@@ -380,10 +417,46 @@ func (r *runner) setup(e *exchRun) error {
 		r.post(x, pre, func(int, string) string {
 			return fmt.Sprintf("ICreateInv %d %d", r.w.inv(id), r.w.key(e.invKey))
 		}, false, "")
-	case "legacy":
+	case "legacy-pubdid", "legacy-implicit": // legacy connection by public DID: the invitation key is the did:key of the DID document
+		id := "did:c10pub:" + e.Inviter + base58ish(r.rng, 8)
+
+		doc, err := x.PublishDID(id)
+		if err != nil {
+			return err
+		}
+
+		e.proto = "LC"
+		e.invKey, e.invEP = doc.Service[0].RecipientKeys[0], x.Endpoint
+
+		if e.Style == "legacy-implicit" {
+			e.invID = id
+			e.accept = func() (string, error) { return y.lc.CreateImplicitInvitation(e.Inviter, id) }
+		} else {
+			inv, err := x.lc.CreateInvitationWithDID(e.Inviter, id)
+			if err != nil {
+				return err
+			}
+
+			e.invID = inv.ID
+			e.accept = func() (string, error) { return y.lc.HandleInvitation(inv) }
+		}
+
+		r.post(x, pre, func(int, string) string {
+			return fmt.Sprintf("ICreateInv %d %d", r.w.inv(e.invID), r.w.key(e.invKey))
+		}, false, "")
+	case "legacy", "legacy-didkey":
 		inv, err := x.lc.CreateInvitation(e.Inviter)
 		if err != nil {
 			return err
+		}
+
+		if e.Style == "legacy-didkey" { // an inviter that writes its recipient key as did:key (RFC 0360)
+			if raw := base58.Decode(inv.RecipientKeys[0]); len(raw) == ed25519.PublicKeySize && !strings.HasPrefix(inv.RecipientKeys[0], "did:") {
+				cp := *inv.Invitation
+				dk, _ := fingerprint.CreateDIDKey(raw)
+				cp.RecipientKeys = []string{dk}
+				inv = &lcclient.Invitation{Invitation: &cp}
+			}
 		}
 
 		e.invID, e.proto = inv.ID, "LC"
@@ -423,7 +496,7 @@ func (r *runner) acceptStep(e *exchRun) {
 		return false
 	})
 	if !ok {
-		r.w.inconclusive = "invitation not processed within the deadline"
+		r.w.setInconclusive("invitation not processed within the deadline")
 
 		return
 	}
@@ -598,6 +671,13 @@ func runCase(spec *Spec, kind string, idx int) *hx.Record {
 
 	r := &runner{w: w, rng: hx.NewRng(spec.Seed), res: res, spec: spec}
 
+	if spec.Mode == "sync" {
+		w.noCoq("synchronous delivery: the agents' steps overlap, the direct oracle decides")
+		w.net.mu.Lock()
+		w.net.syncFn = r.deliverCore
+		w.net.mu.Unlock()
+	}
+
 	var local []func()
 
 	for i := range spec.Exch {
@@ -672,6 +752,41 @@ func runCase(spec *Spec, kind string, idx int) *hx.Record {
 
 		if w.inconclusive == "" {
 			r.checkAll(at.Kind)
+		}
+	}
+
+	// an honest run that has come to rest leaves no connection completed on one side only
+	honest := len(spec.Attacks) == 0
+	for _, e := range r.exs {
+		if e.Forge != "" {
+			honest = false
+		}
+	}
+
+	if honest && w.inconclusive == "" {
+		for _, e := range r.exs {
+			x, y := w.agent(e.Inviter), w.agent(e.Invitee)
+			yr := y.Record(e.inviteeConn)
+
+			if yr == nil {
+				continue
+			}
+
+			xs := "none"
+
+			for _, rec := range x.AllRecords() {
+				if rec.ThreadID == yr.ThreadID && rec.NS == "their" {
+					xs = rec.State
+				}
+			}
+
+			if (yr.State == "completed") != (xs == "completed") {
+				res.failf("mutual-half-open", "honest %s exchange at rest: %s's record is %s, %s's record is %s", e.Style, y.Name, yr.State, x.Name, xs)
+			} else if yr.State != "completed" {
+				// every message was delivered, nobody interfered: the two agents could not run the protocol to completion
+				res.failf("honest-exchange-stalled", "honest %s exchange at rest with every message delivered: %s's record is %s, %s's record is %s",
+					e.Style, y.Name, yr.State, x.Name, xs)
+			}
 		}
 	}
 
@@ -1368,17 +1483,18 @@ func main() {
 
 	rng := hx.NewRng(args.Seed)
 	cfgs := configs()
-	styles := []string{"dx", "oob", "implicit", "legacy"}
+	styles := []string{"dx", "oob", "implicit", "legacy", "legacy-didkey", "legacy-pubdid", "legacy-implicit"}
 	withM := func(target string) Exch { return Exch{Inviter: target, Invitee: "mallory", Style: "dx"} }
 
 	// the configuration matrix x invitation style x k = 1..3 concurrent exchanges
 	// the stub public DID carries an Ed25519 key: the implicit style is exercised with the configurations whose
 	// agents use Ed25519 keys (with P-256 keys the invitee's implicit flow ends in a logged error, no state at all)
 	implicitOK := func(c Config) bool { return c.KeyType == "" || c.KeyType == "ED25519" }
+	needsPub := func(st string) bool { return st == "implicit" || st == "legacy-pubdid" || st == "legacy-implicit" }
 
 	for ci, cfg := range cfgs {
 		for _, st := range styles {
-			if st == "implicit" && !implicitOK(cfg) {
+			if needsPub(st) && !implicitOK(cfg) {
 				continue
 			}
 
@@ -1406,6 +1522,11 @@ func main() {
 	for _, st := range styles {
 		for _, ak := range attackKinds {
 			for _, target := range []string{"alice", "bob"} {
+				// the additional forms of the legacy invitation key differ on the invitee's side: quick runs attack that side
+				if args.Tier == "quick" && strings.HasPrefix(st, "legacy-") && target == "alice" {
+					continue
+				}
+
 				s := &Spec{Cfg: cfgs[0], Seed: rng.U64(), Exch: []Exch{{Inviter: "alice", Invitee: "bob", Style: st}, withM(target)},
 					Attacks: []Attack{{Kind: ak, Target: target}}}
 				add("attack", s)
@@ -1414,14 +1535,39 @@ func main() {
 	}
 
 	// a forged legacy response overtaking the genuine one (the signature by the invitation key is what tells them apart)
-	for _, f := range []string{"key", "liar"} {
-		for _, other := range []bool{false, true} {
-			s := &Spec{Cfg: cfgs[0], Seed: rng.U64(), Exch: []Exch{{Inviter: "alice", Invitee: "bob", Style: "legacy", Forge: f}}}
-			if other {
-				s.Exch = append(s.Exch, Exch{Inviter: "bob", Invitee: "alice", Style: "legacy"})
+	for _, lst := range []string{"legacy", "legacy-didkey", "legacy-pubdid", "legacy-implicit"} {
+		for _, f := range []string{"key", "liar"} {
+			for _, other := range []bool{false, true} {
+				s := &Spec{Cfg: cfgs[0], Seed: rng.U64(), Exch: []Exch{{Inviter: "alice", Invitee: "bob", Style: lst, Forge: f}}}
+				if other {
+					s.Exch = append(s.Exch, Exch{Inviter: "bob", Invitee: "alice", Style: lst})
+				}
+
+				add("forge", s)
+			}
+		}
+	}
+
+	// synchronous delivery: every reply reaches the sender while it is still inside its Send call
+	for _, cfg := range cfgs {
+		for _, st := range styles {
+			if needsPub(st) && !implicitOK(cfg) {
+				continue
 			}
 
-			add("forge", s)
+			for k := 1; k <= 2; k++ {
+				s := &Spec{Cfg: cfg, Seed: rng.U64(), Mode: "sync"}
+				for j := 0; j < k; j++ {
+					e := Exch{Inviter: "alice", Invitee: "bob", Style: st}
+					if j == 1 {
+						e = Exch{Inviter: "bob", Invitee: "alice", Style: st}
+					}
+
+					s.Exch = append(s.Exch, e)
+				}
+
+				add("sync", s)
+			}
 		}
 	}
 
@@ -1437,7 +1583,7 @@ func main() {
 
 		for j := 0; j < k; j++ {
 			e := Exch{Inviter: "alice", Invitee: "bob", Style: styles[rng.Intn(len(styles))]}
-			if e.Style == "implicit" && !implicitOK(s.Cfg) {
+			if needsPub(e.Style) && !implicitOK(s.Cfg) {
 				e.Style = "dx"
 			}
 
@@ -1458,7 +1604,7 @@ func main() {
 		if rng.Intn(2) == 0 { // the attacks run while further exchanges are under way
 			for j, n := 0, 1+rng.Intn(2); j < n; j++ {
 				e := Exch{Inviter: "alice", Invitee: "bob", Style: styles[rng.Intn(len(styles))]}
-				if e.Style == "implicit" && !implicitOK(s.Cfg) {
+				if needsPub(e.Style) && !implicitOK(s.Cfg) {
 					e.Style = "oob"
 				}
 
